@@ -43,6 +43,7 @@ class Ctx:
         self.violations = []    # dicts: key, what, detail
         self.known_hits = []
         self.notes = []
+        self.proofs = []        # TLAPS runs
 
     def cleanup(self):
         shutil.rmtree(self.tmp, ignore_errors=True)
@@ -155,6 +156,28 @@ class Ctx:
         res["error"] = ("Error:" in out) or p.returncode not in (0,)
         return res
 
+    def tlapm_must_prove(self, module, timeout=900):
+        """Run the TLA+ proof system on spec/<module>.tla in the scratch copy: every obligation must be proved
+        (a failure is a defect of the specification's proofs: machinery, exit 2)."""
+        import shutil as _sh
+        exe = _sh.which("tlapm")
+        if not exe:
+            self.notes.append("tlapm not found: proofs of %s not re-checked in this run" % module)
+            return None
+        t = time.time()
+        try:
+            p = subprocess.run([exe, "--threads", str(min(NCPU, 8)), "--cleanfp", module + ".tla"], cwd=self.specdir,
+                               capture_output=True, text=True, timeout=timeout)
+        except subprocess.TimeoutExpired:
+            raise Broken("tlapm timeout on " + module)
+        out = p.stdout + p.stderr
+        m = re.search(r"All (\d+) obligations? proved", out)
+        if not m:
+            raise Broken("tlapm did not prove %s:\n%s" % (module, tail(out)))
+        r = dict(module=module, obligations_proved=int(m.group(1)), wall_s=round(time.time() - t, 2))
+        self.proofs.append(r)
+        return r
+
     def tlc_must_pass(self, *a, **kw):
         """An MC run of the specification itself: any failure is a machinery bug."""
         r = self.tlc(*a, **kw)
@@ -236,6 +259,8 @@ def finish(ctx, level, coverage, assumptions):
     coverage.setdefault("tv_runs", ctx.tv)
     if ctx.notes:
         coverage["notes"] = ctx.notes
+    if getattr(ctx, "proofs", None):
+        coverage["tlaps"] = ctx.proofs
     ev = dict(property_id=ctx.pid, tier=ctx.tier, seed=ctx.seed, level=level,
               coverage=coverage, assumptions=assumptions,
               wall_s=round(time.time() - ctx.t0, 2), violations=len(new),
